@@ -5,6 +5,7 @@ import re
 from ..core import AnalysisError, norm, short, walk_local
 from ..typestate import classify_set
 from . import register
+from ..inline import inlined_view
 from .ir_typestate import rule_n2
 
 NS_INIT = "spydrnet/plugins/namespace_manager/__init__.py"
@@ -253,6 +254,7 @@ def _n4_n5_n6(ctx, R):
         f = nm.methods.get(m)
         if f is None:
             raise AnalysisError("anchor vanished: NamespaceManager.%s" % m)
+        f = inlined_view(P, f)
         s = _key_sets(f) - {".NS"}
         n6 += 1
         if s == WATCHED:
